@@ -7,7 +7,7 @@ Extraction "m.ml" Z.add Z.mul Z.sub Z.div_eucl Z.compare Z.of_nat Z.to_nat Z.opp
   u_init u_clear u_reset u_get u_clone u_push u_pop u_shift u_insert u_set u_remove u_find_first
   u_remove_first_by u_unshift u_units u_copy u_sort
   sorted_insert sorted_remove sorted_find sorted_find2
-  rb_create rb_put rb_back rb_peek rb_clear rb_num_cached rb_iter rb_wrap
+  rb_create rb_put rb_back rb_peek rb_clear rb_num_cached rb_iter rb_wrap rb_create_opt
   x_create x_cat x_unshift x_shift x_pop x_insert x_clear x_clone x_wrap x_data x_term x_set_size x_poke x_printf_alloc x_new_printf AUNIT
   xu_new xu_set xu_get xu_detach xu_destroy
   av_insert av_remove av_lookup av_bounds av_inorder av_walk_fwd av_walk_bwd av_walk_post av_size
